@@ -134,6 +134,118 @@ theorem func_positions (env : Env) (hg : env.gran = .func) (st st' : MState) (li
       · exact Or.inr ⟨s, e, hs, by simpa using hne, h1⟩
     · cases h
 
+/-- where an event on line `l` may put a tracking position: on the first non-comment line at or
+    after `l` (line / patch / scope granularity), or on the first non-comment line after the
+    opening brace of the function scope that strictly contains `l` (func granularity) -/
+def Target (env : Env) (l r : Nat) : Prop :=
+  (env.gran ≠ .func ∧ skipComments env (env.comments.size + 1) l = .ok r) ∨
+  (env.gran = .func ∧ ∃ s e, env.funcs[searchScopes env.funcs l]? = some (s, e) ∧ searchScopes env.funcs l ≠ 0 ∧
+      skipComments env (env.comments.size + 1) (s + 1) = .ok r)
+
+/-- one `forceMark` adds at most the target of its own line -/
+theorem forceMark_prov (env : Env) (st st' : MState) (l : Nat) (hinv : Inv env st)
+    (h : forceMark env st l = .ok st') : ∀ r ∈ st'.multi, r ∈ st.multi ∨ Target env l r := by
+  cases hg : env.gran with
+  | func =>
+    intro r hr
+    rcases func_positions env hg st st' l hinv h r hr with h1 | ⟨s, e, h1, h2, h3⟩
+    · exact Or.inl h1
+    · exact Or.inr (Or.inr ⟨hg, s, e, h1, h2, h3⟩)
+  | line =>
+    unfold forceMark at h
+    rw [hg] at h
+    intro r hr
+    rcases (markInsert_spec env st st' l hinv h).2.2.2.2.2 r hr with h1 | h1
+    · exact Or.inl h1
+    · exact Or.inr (Or.inl ⟨by rw [hg]; decide, h1⟩)
+  | scope =>
+    unfold forceMark at h
+    rw [hg] at h
+    simp only at h
+    split at h
+    · cases h; intro r hr; exact Or.inl hr
+    · split at h
+      · cases h; intro r hr; exact Or.inl hr
+      · next t ht hv =>
+        have hinv' : Inv env { st with visitedScopes := t.search l :: st.visitedScopes } :=
+          ⟨hinv.nodup, hinv.notComment, hinv.inFunc, hinv.count⟩
+        intro r hr
+        rcases (markInsert_spec env _ st' l hinv' h).2.2.2.2.2 r hr with h1 | h1
+        · exact Or.inl h1
+        · exact Or.inr (Or.inl ⟨by rw [hg]; decide, h1⟩)
+  | patch =>
+    unfold forceMark at h
+    rw [hg] at h
+    simp only at h
+    split at h
+    · cases h; intro r hr; exact Or.inl hr
+    · next t ht =>
+      split at h
+      · cases h
+      · next ps hps =>
+        generalize hst1 : (if (List.lookup (TScope.search l t) st.patch).isNone = true then
+            ({ multi := st.multi, singles := st.singles, count := st.count, visitedScopes := st.visitedScopes,
+               patch := (TScope.search l t, ps) :: st.patch } : MState) else st) = st1 at h
+        have h1 : st1.multi = st.multi ∧ st1.singles = st.singles ∧ st1.count = st.count := by
+          rw [← hst1]; split <;> simp
+        have hinv1 : Inv env st1 :=
+          ⟨h1.1 ▸ hinv.nodup, by rw [h1.1]; exact hinv.notComment, by rw [h1.1]; exact hinv.inFunc,
+           by rw [h1.1, h1.2.1, h1.2.2]; exact hinv.count⟩
+        split at h
+        · cases h
+        · cases h; intro r hr; rw [h1.1] at hr; exact Or.inl hr
+        · split at h
+          · next st2 ps2 hm hpm =>
+            cases h
+            intro r hr
+            rcases (markInsert_spec env st1 st2 l hinv1 hm).2.2.2.2.2 r hr with h2 | h2
+            · rw [h1.1] at h2; exact Or.inl h2
+            · exact Or.inr (Or.inl ⟨by rw [hg]; decide, h2⟩)
+          · cases h
+          · cases h
+
+/-- **tracking points only where a change justifies them** — for every event list and every
+    granularity, whenever the fold terminates normally: every multi-line position is the target
+    (`Target`) of a `check` event whose line is changed or of a `force` event (a changed header);
+    nothing else ever becomes a position. Together with `no_change_no_points` (no changed line:
+    no event passes) and `points_distinct_and_placed`. -/
+theorem points_justified (env : Env) (evs : List Ev) :
+    ∀ (st st' : MState), Inv env st → evs.foldlM (stepEv env) st = .ok st' →
+      ∀ r ∈ st'.multi, r ∈ st.multi ∨
+        ∃ l, ((Ev.check l ∈ evs ∧ env.isChanged l = .ok true) ∨ Ev.force l ∈ evs) ∧ Target env l r := by
+  induction evs with
+  | nil => intro st st' _ h r hr; simp [pure, Except.pure] at h; cases h; exact Or.inl hr
+  | cons ev rest ih =>
+    intro st st' hinv h r hr
+    obtain ⟨b', h1, h2⟩ := (foldlM_ok_cons _ _ _ _ _).mp h
+    have s1 := stepEv_spec env st b' ev hinv h1
+    rcases ih b' st' s1.1 h2 r hr with hb | ⟨l, hl, ht⟩
+    · -- r was already there after the head event
+      cases ev with
+      | check l =>
+        simp only [stepEv] at h1
+        split at h1
+        · cases h1
+        · cases h1; exact Or.inl hb
+        · next hc =>
+          rcases forceMark_prov env st b' l hinv h1 r hb with h3 | h3
+          · exact Or.inl h3
+          · exact Or.inr ⟨l, Or.inl ⟨by simp, hc⟩, h3⟩
+      | force l =>
+        rcases forceMark_prov env st b' l hinv h1 r hb with h3 | h3
+        · exact Or.inl h3
+        · exact Or.inr ⟨l, Or.inr (by simp), h3⟩
+      | single l c =>
+        simp only [stepEv] at h1
+        split at h1
+        · cases h1
+        · cases h1; exact Or.inl hb
+        · cases h1; exact Or.inl hb
+    · refine Or.inr ⟨l, ?_, ht⟩
+      rcases hl with ⟨hm, hc⟩ | hm
+      · exact Or.inl ⟨List.mem_cons_of_mem _ hm, hc⟩
+      · exact Or.inr (List.mem_cons_of_mem _ hm)
+
 /-- **the number of tracking points never increases from line to patch / scope granularity**:
     for every event list (the events do not depend on the granularity), whenever both folds
     terminate normally, the positions chosen at patch or scope granularity are among those
